@@ -1565,3 +1565,82 @@ func c20r16(rc *core.RC) {
 		rc.Unknown("decoder/DecodePath-methods", token.NoPos, "found %d DecodePath methods, fewer than the 15 confirmed by hand", n)
 	}
 }
+
+// ---- C20.R17 an array destination takes exactly as many parts as it has places ----
+
+// castArray builds the value for a destination of array kind from the list of selected parts. Either the source is
+// assignable as it is (an array of the destination's own type), or its length is compared with the array's and a
+// difference is an error: a conversion of the whole (reflect's Convert cuts a longer slice to the array's length) or
+// any other early return drops parts without a word. Obligation: every return of a value in castArray is behind a
+// test with AssignableTo, or behind the exit that compares t.Len() with v.Len().
+func c20r17(rc *core.RC) {
+	p := rc.P
+	fd := p.Func("decoder", "castArray")
+	if fd == nil || fd.Body == nil {
+		rc.Unknown("decoder.castArray/length-agrees", token.NoPos, "castArray not found")
+		return
+	}
+	rc.Touch(p.FuncName(fd))
+	info := p.Info(fd)
+	// the exit on different lengths
+	var lenExit *ast.IfStmt
+	for _, st := range fd.Body.List {
+		ifs, ok := st.(*ast.IfStmt)
+		if !ok || len(ifs.Body.List) == 0 {
+			continue
+		}
+		be, isB := core.Unparen(ifs.Cond).(*ast.BinaryExpr)
+		if !isB || be.Op != token.NEQ {
+			continue
+		}
+		isLen := func(e ast.Expr) bool {
+			c, isCall := core.Unparen(e).(*ast.CallExpr)
+			if !isCall {
+				return false
+			}
+			cn := core.CalleeName(info, c)
+			return cn == "reflect.Type.Len" || cn == "reflect.Value.Len"
+		}
+		if r, isRet := ifs.Body.List[len(ifs.Body.List)-1].(*ast.ReturnStmt); isRet && isLen(be.X) && isLen(be.Y) && core.ReturnIsError(info, r) {
+			lenExit = ifs
+		}
+	}
+	n := 0
+	ast.Inspect(fd.Body, func(m ast.Node) bool {
+		r, ok := m.(*ast.ReturnStmt)
+		if !ok || len(r.Results) != 2 {
+			return true
+		}
+		if o := core.ObjOf(info, r.Results[0]); o != nil && o.Name() == "nilValue" {
+			return true
+		}
+		if c, isCall := core.Unparen(r.Results[0]).(*ast.CallExpr); isCall && core.CalleeName(info, c) == "decoder.castArray" {
+			return true // the same question for the value an interface holds
+		}
+		n++
+		key := fmt.Sprintf("decoder.castArray/return#%d length-agrees", n)
+		ok2, why := false, ""
+		if lenExit != nil && lenExit.End() <= r.Pos() {
+			ok2, why = true, "behind the exit "+core.Src(p.Fset, lenExit.Cond)
+		}
+		for _, anc := range core.PathTo(fd.Body, r) {
+			if ifs, isIf := anc.(*ast.IfStmt); isIf && ifs.Body.Pos() <= r.Pos() && r.End() <= ifs.Body.End() {
+				ast.Inspect(ifs.Cond, func(q ast.Node) bool {
+					if c, isCall := q.(*ast.CallExpr); isCall && core.CalleeName(info, c) == "reflect.Type.AssignableTo" {
+						ok2, why = true, "the source is assignable as it is ("+core.Src(p.Fset, ifs.Cond)+")"
+					}
+					return true
+				})
+			}
+		}
+		if ok2 {
+			rc.OK(key, r.Pos(), "%s", why)
+		} else {
+			rc.Bad(key, r.Pos(), "castArray returns %s without having compared the number of parts with the length of the array: a path that selects more parts than the destination [N]T holds stores the first N and reports success (reflect's Convert cuts a longer slice)", core.Src(p.Fset, r.Results[0]))
+		}
+		return true
+	})
+	if n < 2 || lenExit == nil {
+		rc.Unknown("decoder.castArray/length-agrees", fd.Pos(), "found %d returns of a value and the length exit=%v (2 returns and the exit confirmed by hand)", n, lenExit != nil)
+	}
+}
